@@ -25,7 +25,7 @@ META = dict(
     property="C01",
     level="exploration",
     technique="complete enumeration of all 5-step (thorough: 6-step, and 5-step over 24 operations) programs over 2 Deferreds and a 16-operation alphabet, plus Hypothesis programs built from chaining scenario fragments over up to 6 Deferreds, against a recursive reference interpreter; compared after every operation",
-    level_text="Every program of length <= 5 (quick) / <= 6 (thorough; plus length <= 5 over the 24-operation alphabet) over two Deferreds and the 16-operation alphabet ALPHABET16 is executed, up to renaming of the two Deferreds and leaving out programs that contain an unpause the harness ignores (those are equal to a shorter program); each length-L program also checks all its prefixes, because the comparison is made after every operation. Beyond that scope programs of up to 24 operations over 2..6 Deferreds are sampled with Hypothesis from scenario fragments (chains, inner-first / outer-first firing, callbacks added after a Deferred was returned, pauses of waiter and of inner Deferred, one Deferred returned twice, cycles). Not a proof: exhaustive only inside the small scope.",
+    level_text="Every program of length <= 5 (quick) / <= 6 (thorough; plus length <= 5 over the 24-operation alphabet) over two Deferreds and the 16-operation alphabet ALPHABET16 is executed, up to renaming of the two Deferreds and leaving out programs that contain an unpause the harness ignores (those are equal to a shorter program); each length-L program also checks all its prefixes, because the comparison is made after every operation. Beyond that scope programs of up to 24 operations over 2..6 Deferreds are sampled with Hypothesis from scenario fragments (chains, inner-first / outer-first firing, callbacks added after a Deferred was returned, pauses of waiter and of inner Deferred, one Deferred returned twice, cycles). A smaller complete scope (one step shorter) and a fifth of the Hypothesis programs run with Deferred debugging switched on (documented to change only diagnostics). Not a proof: exhaustive only inside the small scope.",
     level_note="Trusted base: the reference interpreter in this file (class Model, mode 'spec'), written from the Deferred docstrings/howto: callbacks run in order, a returned Deferred with a usable result is consumed (its result becomes None), otherwise the waiter is paused and resumed through a continuation that hands the result over. Callbacks in the programs never call back into Deferreds (no re-entrancy), never return the Deferred they are attached to, and only the harness's own pauses are unpaused.",
     design_ref="§5 C01",
     rule="case = {D, ops}. Non-trivial = some callback returned a Deferred and some callback ran after that (anywhere in the program); distinct by the op list. Classes count what the reference interpreter saw: result stolen from a fired Deferred, waiter parked on an unfired / paused / chained Deferred, hand-over through a continuation, hand-over to a waiter that is still paused, AlreadyCalledError, callbacks run after a hand-over.",
@@ -377,10 +377,25 @@ def _log_mismatch(n, op, rlog, mlog):
 
 
 def _key(case):
-    return "%d|" % case["D"] + ";".join(",".join(str(x) for x in op) for op in case["ops"])
+    return ("dbg" if case.get("debug") else "") + "%d|" % case["D"] + ";".join(",".join(str(x) for x in op) for op in case["ops"])
 
 
 def run_case(ctx, case):
+    """Optional case key "debug": run with Deferred debugging on (defer.setDebugging(True)), which
+    is documented to record creation / invocation tracebacks and to change nothing else."""
+    from twisted.internet import defer
+    debug = bool(case.get("debug"))
+    old = defer.getDebugging()
+    defer.setDebugging(debug)
+    try:
+        _run_case(ctx, case)
+    finally:
+        defer.setDebugging(old)
+    if debug:
+        ctx.count("program run with Deferred debugging on")
+
+
+def _run_case(ctx, case):
     D = int(case["D"])
     ops = case["ops"]
     if not 1 <= D <= MAX_D:
@@ -462,6 +477,8 @@ def _enum_shard(ctx, arg):
     the same run as the shorter program without that step, which is a prefix
     of other enumerated programs."""
     name, length, prefix = arg
+    debug = name.endswith("+debug")
+    name = name.split("+")[0]
     A = ALPHABETS[name]
     n = len(A)
     kind = [(1 if op[0] == "pause" else -1 if op[0] == "unpause" else 0, op[1]) for op in A]
@@ -484,7 +501,7 @@ def _enum_shard(ctx, arg):
         while True:
             seq = list(prefix) + idx
             if ok(seq):
-                yield dict(D=2, ops=[A[x] for x in seq])
+                yield dict(D=2, ops=[A[x] for x in seq], debug=True) if debug else dict(D=2, ops=[A[x] for x in seq])
             else:
                 ctx.extra["skipped_equal_to_shorter_program"] = \
                     ctx.extra.get("skipped_equal_to_shorter_program", 0) + 1
@@ -501,7 +518,7 @@ def _enum_shard(ctx, arg):
 
 
 def _enum_args(name, length):
-    A = ALPHABETS[name]
+    A = ALPHABETS[name.split("+")[0]]
     n = len(A)
     firsts = [a for a in range(n) if A[a][1] == 0]
     return [(name, length, (a, b)) for a in firsts for b in range(n)]
@@ -623,7 +640,10 @@ def programs(draw):
             a = draw(st.integers(0, len(ops) - 1))
             b = draw(st.integers(0, len(ops) - 1))
             ops[a], ops[b] = ops[b], ops[a]
-    return dict(D=D, ops=ops[:24])
+    case = dict(D=D, ops=ops[:24])
+    if draw(st.sampled_from([False, False, False, False, True])):
+        case["debug"] = True
+    return case
 
 
 def _hyp_shard(ctx, i):
@@ -631,7 +651,7 @@ def _hyp_shard(ctx, i):
 
 
 def run(ctx):
-    scopes = [("a16", ctx.pick(5, 6))] + ([("a24", 5)] if ctx.thorough else [])
+    scopes = [("a16", ctx.pick(5, 6)), ("a16+debug", ctx.pick(4, 5))] + ([("a24", 5)] if ctx.thorough else [])
     args = []
     for name, length in scopes:
         args += _enum_args(name, length)
@@ -640,7 +660,8 @@ def run(ctx):
     ctx.shards(_enum_shard, args, procs=None if ctx.thorough else 1)
     ctx.extra["exhaustive_scope"] = dict(
         deferreds=2,
-        scopes=[dict(alphabet=ALPHABETS[name], length=length) for name, length in scopes],
+        scopes=[dict(alphabet=ALPHABETS[name.split("+")[0]], length=length, debugging=name.endswith("+debug"))
+                for name, length in scopes],
         note="every program of that length whose first operation is on Deferred 0 (the other half is "
              "its mirror image) and that contains no harness-ignored unpause; the comparison after "
              "every operation covers all shorter programs as prefixes")
